@@ -116,6 +116,24 @@ DESC = {
  "B6-m1": "timer: re-poll of a registered future refreshes the waker without taking the timer lock (threads only)",
  "B6-m2": "pairing heap: 'insertion hint' in a new private field that goes stale on one removal path (hidden state, 9 operations, duplicates)",
  "B6-m3": "timer: lock-free next_expiration() through an AtomicU64 whose 'none' sentinel collides with deadline u64::MAX",
+ "D1-m1": "timer: poll returns Ready without the timer lock when its own node already says Expired (threads only: the service still unlinks the node)",
+ "D1-m2": "mpmc SharedStream: look-ahead field, a woken stream fetches the next item too (a second receiver gets a later value)",
+ "D1-m3": "state broadcast: send() wakes and dequeues only waiters whose id is below the new one (needs a StateId from another channel that is ahead)",
+ "D2-m1": "shared semaphore: try_acquire / release / permits skip the internal lock while Arc::strong_count == 1 (two threads sharing one handle by reference race unlocked)",
+ "D2-m2": "fair semaphore: try_acquire_sync checks 'oldest waiter not Notified' instead of 'no waiters' (a small request overtakes a larger head)",
+ "D2-m3": "semaphore: required_permits narrowed to u32 (acquire(2^32+2) completes with 5 permits)",
+ "D3-m1": "mpmc: lock-free 'parked senders' counter bumped after the unlock lets a receive skip the refill (judged NOT a violation: the reordered try_send overlaps the first poll of the parked send)",
+ "D3-m2": "ArrayBuf::drop: fast path on size_of::<A>() == 0 also skips zero-sized elements that implement Drop",
+ "D3-m3": "FixedHeapBuf: capacity()/can_push() from VecDeque::capacity() (usize::MAX for a zero-sized payload: channel becomes unbounded)",
+ "D4-m1": "mpmc: last receiver runs clear() before close() (a send in between is accepted and stays buffered; threads only)",
+ "D4-m2": "state broadcast: ids compared with != instead of < (a StateId that is ahead of the channel completes with an older state)",
+ "D4-m3": "mpmc SharedStream: dropping a stream that is waiting for an item closes the channel",
+ "D5-m1": "ArrayBuf::drop: pointer-range loop never runs for zero-sized elements (ZST with Drop is leaked)",
+ "D5-m2": "pairing heap: merge_children rewritten recursively (stack depth = half the number of children; 40 000+ timers overflow the stack)",
+ "D5-m3": "timer: check_expirations wakes outside the lock with a scratch Vec taken out of the state (a concurrent call allocates; threads only)",
+ "D6-m1": "timer: delay() converts the Duration through f64 (about 4 % of whole-millisecond delays >= 1001 ms fire 1 ms early)",
+ "D6-m2": "event: set() wakes in batches of 16, re-taking the lock per batch (threads + >= 17 waiters: a waiter registered after a reset is completed)",
+ "D6-m3": "mutex: Debug prints the payload without holding the async mutex when is_locked() is false (threads only)",
 }
 
 def first_sentence(meta):
